@@ -186,3 +186,45 @@ Print Assumptions C03_rescale_variance_no_observations.
 Print Assumptions C03_rescale_is_scaled_model.
 Print Assumptions C03_filter_is_batch.
 Print Assumptions C03_prediction_is_batch.
+
+(* ---- round 4: the model OBJECT as a state machine (model/KalmanSession.v; proofs/KalmanSessionProofs.v) ----
+   A model is a list of variants (values, solution with its two memo lists of expansion matrices); operations
+   assign / solve / alter_num_variants / kalman_filter (both modes) / simulate.  `arun` is the specification
+   machine: it stores no solution and no cache, and answers a call with a function of the variant's current
+   values, the values it was last solved for, the mode and the variant's data column only.  The black boxes
+   (assign1, solve1, devsol, expand, kf, sim) are arbitrary functions. *)
+From Verif.model Require KalmanSession.
+From Verif.proofs Require KalmanSessionProofs.
+
+(* history independence: for every operation history and every pair of related initial states, everything the
+   session returns equals what the specification machine returns, and the final states are related again *)
+Theorem C03_session_history_independence (P X S E D O : Type) (assign1 : X -> P -> P) (solve1 : P -> S) (devsol : S -> S)
+    (expand : bool -> S -> nat -> E) (fwd_of : D -> option nat) (kf sim : S -> P -> list E -> D -> O)
+    (ops : list (KalmanSession.op X D)) (vs : list (KalmanSession.variant P S E)) (avs : list (KalmanSession.avariant P)) :
+  List.Forall2 (KalmanSession.rel P S E solve1 expand) vs avs ->
+  fst (KalmanSession.run P X S E D O assign1 solve1 devsol expand fwd_of kf sim ops vs) = fst (KalmanSession.arun P X S E D O assign1 solve1 devsol expand fwd_of kf sim ops avs) /\
+  match snd (KalmanSession.run P X S E D O assign1 solve1 devsol expand fwd_of kf sim ops vs), snd (KalmanSession.arun P X S E D O assign1 solve1 devsol expand fwd_of kf sim ops avs) with
+  | Some r, Some r' => List.Forall2 (KalmanSession.rel P S E solve1 expand) r r'
+  | None, None => True
+  | _, _ => False
+  end.
+Proof. exact (KalmanSessionProofs.session_refines P X S E D O assign1 solve1 devsol expand fwd_of kf sim ops vs avs). Qed.
+
+(* in every state reachable from a freshly built model, a variant that is solved for its current values p answers
+   a filter / simulate call (b) in either mode exactly as a freshly built and solved single-variant model with
+   values p does on that variant's data column *)
+Theorem C03_reachable_solved_is_fresh (P X S E D O : Type) (assign1 : X -> P -> P) (solve1 : P -> S) (devsol : S -> S)
+    (expand : bool -> S -> nat -> E) (fwd_of : D -> option nat) (kf sim : S -> P -> list E -> D -> O)
+    (ops : list (KalmanSession.op X D)) (p0 : P) (b dev : bool) (vs : list (KalmanSession.variant P S E))
+    (avs : list (KalmanSession.avariant P)) (ds : list D) (dd : D) (k : nat) (p : P) :
+  snd (KalmanSession.run P X S E D O assign1 solve1 devsol expand fwd_of kf sim ops (KalmanSession.fresh P S E solve1 p0)) = Some vs ->
+  snd (KalmanSession.arun P X S E D O assign1 solve1 devsol expand fwd_of kf sim ops (cons (KalmanSession.mkAv P p0 (Some p0)) nil)) = Some avs ->
+  lt k (length vs) ->
+  List.nth k avs (KalmanSession.mkAv P p None) = KalmanSession.mkAv P p (Some p) ->
+  List.nth k (List.map snd (KalmanSession.call_model P S E D O devsol expand fwd_of kf sim b dev vs ds dd)) None
+  = List.nth 0%nat (List.map snd (KalmanSession.call_model P S E D O devsol expand fwd_of kf sim b dev (KalmanSession.fresh P S E solve1 p)
+                                 (cons (KalmanSession.etl ds dd k) nil) dd)) None.
+Proof. exact (KalmanSessionProofs.reachable_solved_is_fresh P X S E D O assign1 solve1 devsol expand fwd_of kf sim ops p0 b dev vs avs ds dd k p). Qed.
+
+Print Assumptions C03_session_history_independence.
+Print Assumptions C03_reachable_solved_is_fresh.
